@@ -9,7 +9,8 @@ namespace Props.Dep5
 open Proto Py Model.Copyright
 
 /-- one continuation line of a multi-line value: 0 = paragraph text, 1 = blank-line marker ` .`,
-2 = verbatim line (two or more leading spaces) -/
+2 = verbatim line (two or more leading spaces), 3 = item line of a list-valued field (Files, Copyright):
+one space, then the content, which may be indented further and may start with a full stop -/
 structure TLine where
   kind : Nat
   content : Str
@@ -33,6 +34,7 @@ def rawLine (l : TLine) : Str :=
   match l.kind with
   | 0 => ' ' :: l.content
   | 1 => [' ', '.']
+  | 3 => ' ' :: l.content
   | _ => ' ' :: ' ' :: l.content
 
 def fieldLines (f : Field) : List Str :=
@@ -65,11 +67,19 @@ def tlineOk (l : TLine) : Bool :=
   | 2 => !l.content.isEmpty && plain l.content && !lastP isSpace l.content
   | _ => false
 
+/-- the item text of a line of a list-valued field: without its further indentation -/
+def itemText (l : TLine) : Str := l.content.dropWhile (· == ' ')
+
 /-- a text block: starts with a paragraph line (or, with `verbFirst`, a verbatim line) and does not
 end in a blank-line marker -/
 def blockOk (ls : List TLine) (verbFirst : Bool := false) : Bool :=
   ls.all tlineOk && (match ls.head? with | some l => l.kind == 0 || (verbFirst && l.kind == 2) | none => true) &&
   (match ls.getLast? with | some l => l.kind != 1 | none => true)
+
+/-- the continuation lines of a text that starts on the declaration line: any line kinds, not ending in a
+blank-line marker -/
+def bodyOk (ls : List TLine) : Bool :=
+  ls.all tlineOk && (match ls.getLast? with | some l => l.kind != 1 | none => true)
 
 def normLabel (s : Str) : Str :=
   let l := lowerAscii s
@@ -99,15 +109,19 @@ def labelOk (f : Field) : Bool :=
 def singleSpaced (s : Str) : Bool :=
   !s.isEmpty && plain s && trimmed s && (splitChar ' ' s).all (!·.isEmpty) && s.all (fun c => !isSpace c || c == ' ')
 
+/-- an item line: paragraph-text layout, or free layout (any further indentation, leading full stop) -/
+def itemOk (l : TLine) : Bool :=
+  (l.kind == 0 && singleSpaced l.content && !headP (· == '.') l.content) ||
+  (l.kind == 3 && plain l.content && singleSpaced (itemText l))
+
 def fieldOk (f : Field) (verbFirst : Bool := false) : Bool :=
   labelOk f && plain f.first && trimmed f.first &&
   (match f.kind with
    | 0 => !f.first.isEmpty && f.conts.isEmpty
-   | 1 => singleSpaced f.first && f.conts.all (fun l => l.kind == 0 && singleSpaced l.content && !headP (· == '.') l.content)
-   | 2 => singleSpaced f.first &&
-          f.conts.all (fun l => l.kind == 0 && singleSpaced l.content && !headP (· == '.') l.content)
+   | 1 => singleSpaced f.first && f.conts.all (fun l => itemOk l)
+   | 2 => singleSpaced f.first && f.conts.all (fun l => itemOk l)
    | 3 => !f.first.isEmpty && blockOk f.conts verbFirst
-   | 4 => blockOk f.conts verbFirst && (!f.first.isEmpty || !f.conts.isEmpty)
+   | 4 => (if f.first.isEmpty then blockOk f.conts verbFirst else bodyOk f.conts) && (!f.first.isEmpty || !f.conts.isEmpty)
    | 5 => !f.first.isEmpty && f.conts.all (fun l => l.kind == 0 && tlineOk l)
    | 6 => !f.first.isEmpty && f.conts.all (fun l => l.kind == 0 && tlineOk l)
    | _ => false)
@@ -149,6 +163,7 @@ def decodeLine (l : TLine) : Str :=
   match l.kind with
   | 0 => l.content
   | 1 => []
+  | 3 => l.content
   | _ => ' ' :: l.content
 
 def punct : Str := "!\"#$%&'()*+,-./:;<=>?@[\\]^_`{|}~".toList
@@ -171,8 +186,8 @@ where
 def expectedFV (f : Field) : FV :=
   match f.kind with
   | 0 => .single (some f.first)
-  | 1 => .wsSep ((splitChar ' ' f.first) ++ f.conts.flatMap fun l => splitChar ' ' l.content)
-  | 2 => .copyright ((f.first :: f.conts.map (·.content)).map splitStatement)
+  | 1 => .wsSep ((splitChar ' ' f.first) ++ f.conts.flatMap fun l => splitChar ' ' (itemText l))
+  | 2 => .copyright ((f.first :: f.conts.map itemText).map splitStatement)
   | 3 => .license f.first (if f.conts.isEmpty then none else some (joinNl (f.conts.map decodeLine)))
   | 6 => .lineSep (f.first :: f.conts.map (·.content))
   | _ => .formatted (some (joinNl ((if f.first.isEmpty then [] else [f.first]) ++ f.conts.map decodeLine)))
